@@ -283,14 +283,30 @@ def ilTop (npol : Nat) (ns : List Nat) (l : Nat) : Nat := 2 * streamsAbove ns l 
 def ilBottom (npol : Nat) (ns : List Nat) (l : Nat) : Nat := ilTop npol ns l + ns.getD l 0 * npol
 def nboundary (npol : Nat) (ns : List Nat) : Nat := ns.foldl (· + ·) 0 * 2 * npol
 
+/-- `max(np.max(2 n[1:] + n[:-1]), np.max(n[1:] + 2 n[:-1]))` over consecutive layers -/
+def nbandAux : List Nat → Nat
+  | a :: b :: rest => max (max (2 * b + a) (b + 2 * a)) (nbandAux (b :: rest))
+  | _ => 0
+
 /-- `nband` of `dort_modem_banded` -/
 def nband (npol : Nat) (ns : List Nat) : Nat :=
   match ns with
   | [] => 0
   | [n] => 3 * npol * n
-  | _ =>
-    let pairs := ns.zip ns.tail   -- (n[l-1], n[l])
-    npol * pairs.foldl (fun acc (a, b) => max acc (max (2 * b + a) (b + 2 * a))) 0
+  | _ => npol * nbandAux ns
+
+/-- the four blocks `dort_modem_banded` writes for layer `l`, as (row offset, column offset, rows, columns);
+    `k` is the number of rows kept by the `ns_npol_common` truncation of a coupling block -/
+def blockTop (npol : Nat) (ns : List Nat) (l : Nat) : Nat × Nat × Nat × Nat :=
+  (ilTop npol ns l, jl npol ns l, ns.getD l 0 * npol, 2 * (ns.getD l 0 * npol))
+def blockBottom (npol : Nat) (ns : List Nat) (l : Nat) : Nat × Nat × Nat × Nat :=
+  (ilBottom npol ns l, jl npol ns l, ns.getD l 0 * npol, 2 * (ns.getD l 0 * npol))
+/-- `-Tbottom(l) Ed transb` written at the top rows of layer `l+1` -/
+def blockDown (npol : Nat) (ns : List Nat) (l k : Nat) : Nat × Nat × Nat × Nat :=
+  (ilTop npol ns (l + 1), jl npol ns l, k, 2 * (ns.getD l 0 * npol))
+/-- `-Ttop(l+1) Eu transt` of layer `l+1` written at the bottom rows of layer `l` -/
+def blockUp (npol : Nat) (ns : List Nat) (l k : Nat) : Nat × Nat × Nat × Nat :=
+  (ilBottom npol ns l, jl npol ns (l + 1), k, 2 * (ns.getD (l + 1) 0 * npol))
 
 /-- `extend_2pol_npol` on a vector: V and H entries move to slots `0,1` of each `npol` group, the rest is 0 -/
 def extend2polVec (npol : Nat) (x : Nat → α) : Nat → α :=
